@@ -75,6 +75,17 @@ pub(crate) fn write_bundle_v1(
     Ok(artifact_id)
 }
 
+/// True when `artifact_id` names a stored artifact blob (handoff summaries given by id must
+/// resolve). Ids are plain file names: anything with a path separator cannot name a blob.
+pub(crate) fn artifact_blob_exists(workspace_root: &Path, artifact_id: &str) -> bool {
+    if artifact_id.is_empty() || artifact_id.contains(['/', '\\']) || artifact_id.starts_with('.') {
+        return false;
+    }
+    artifacts_blobs_dir(workspace_root)
+        .join(artifact_id)
+        .is_file()
+}
+
 fn artifacts_blobs_dir(workspace_root: &Path) -> PathBuf {
     workspace_root.join(".rip").join("artifacts").join("blobs")
 }
